@@ -211,9 +211,12 @@ KillOwn(cfg, wl, s, cids, h) ==
   ELSE KillOwn(cfg, wl, IF OverOwn(cfg, wl, s, Head(cids), h) THEN Kill(wl, s, Head(cids)) ELSE s, Tail(cids), h)
 
 \* E5 step 2: pool-level victims by score usage^2/allocation, descending, stable (C11)
-ScoreGt(c, d) == ProdCmp(<<c.mem, c.mem, d.ram>>, <<d.mem, d.mem, c.ram>>) = 1
+Small3(c, d) == c.mem <= 1280 /\ d.mem <= 1280 /\ c.ram <= 1280 /\ d.ram <= 1280            \* products below 2^31: plain integers are exact
+ScoreGt(c, d) == IF Small3(c, d) THEN c.mem * c.mem * d.ram > d.mem * d.mem * c.ram
+                 ELSE ProdCmp(<<c.mem, c.mem, d.ram>>, <<d.mem, d.mem, c.ram>>) = 1
 Candidates(s, k) == SelectSeq(s.pools[k].active, LAMBDA cid : ~s.ctr[cid].done /\ s.ctr[cid].mem > 0)
-ScoreEq(c, d) == ProdCmp(<<c.mem, c.mem, d.ram>>, <<d.mem, d.mem, c.ram>>) = 0
+ScoreEq(c, d) == IF Small3(c, d) THEN c.mem * c.mem * d.ram = d.mem * d.mem * c.ram
+                 ELSE ProdCmp(<<c.mem, c.mem, d.ram>>, <<d.mem, d.mem, c.ram>>) = 0
 \* x is killed before y: strictly higher score; scores EXACTLY tied may come out either way in floating point, so among
 \* tied candidates the observed victims (hint, trace validation only) go first; otherwise the pool's container order (stable sort)
 Before(s, x, y, h) == ScoreGt(s.ctr[x], s.ctr[y]) \/ (ScoreEq(s.ctr[x], s.ctr[y]) /\ x \in h.pool /\ y \notin h.pool)
